@@ -61,6 +61,9 @@ fn unesc(p: &str) -> String {
 }
 
 struct Scen {
+    /// checked by the oracles only: a name too long for its staging name makes the run stop with ENAMETOOLONG, which the
+    /// step model does not have
+    oracle_only: bool,
     name: &'static str,
     /// trees after which a completed bisync establishes the archive (None = no previous run: first run)
     base: Option<(Tree, Tree)>,
@@ -144,15 +147,17 @@ pub fn main(a: Args) -> i32 {
     let v3: &[u8] = b"third";
     let both = |x: Tree| (x.clone(), x);
     let mut scens = vec![
-        Scen { name: "first-run-create", base: None, a: t(&[("f", v1), ("d/g", &big)]), b: t(&[]) },
-        Scen { name: "first-run-differing", base: None, a: t(&[("f", v1)]), b: t(&[("f", v2), ("h", v3)]) },
-        Scen { name: "propagate-A-to-B", base: Some(both(t(&[("f", v1), ("k", v3)]))), a: t(&[("f", v2), ("k", v3)]), b: t(&[("f", v1), ("k", v3)]) },
-        Scen { name: "propagate-B-to-A", base: Some(both(t(&[("f", v1)]))), a: t(&[("f", v1)]), b: t(&[("f", &big)]) },
-        Scen { name: "delete-on-A", base: Some(both(t(&[("f", v1), ("k", v3)]))), a: t(&[("k", v3)]), b: t(&[("f", v1), ("k", v3)]) },
-        Scen { name: "delete-on-B", base: Some(both(t(&[("f", v1), ("d/g", v2)]))), a: t(&[("f", v1), ("d/g", v2)]), b: t(&[("f", v1)]) },
-        Scen { name: "both-changed-conflict", base: Some(both(t(&[("f", v1)]))), a: t(&[("f", v2)]), b: t(&[("f", v3)]) },
-        Scen { name: "delete-vs-modify", base: Some(both(t(&[("f", v1)]))), a: t(&[("f", v2)]), b: t(&[]) },
-        Scen { name: "several-paths", base: Some(both(t(&[("a", v1), ("b", v1), ("c", v1), ("d/e", v1)]))), a: t(&[("a", v2), ("b", v1), ("d/e", v3), ("n", v3)]), b: t(&[("a", v1), ("b", v2), ("c", v1), ("d/e", v2)]) },
+        Scen { oracle_only: false, name: "first-run-create", base: None, a: t(&[("f", v1), ("d/g", &big)]), b: t(&[]) },
+        Scen { oracle_only: false, name: "first-run-differing", base: None, a: t(&[("f", v1)]), b: t(&[("f", v2), ("h", v3)]) },
+        Scen { oracle_only: false, name: "propagate-A-to-B", base: Some(both(t(&[("f", v1), ("k", v3)]))), a: t(&[("f", v2), ("k", v3)]), b: t(&[("f", v1), ("k", v3)]) },
+        Scen { oracle_only: false, name: "propagate-B-to-A", base: Some(both(t(&[("f", v1)]))), a: t(&[("f", v1)]), b: t(&[("f", &big)]) },
+        Scen { oracle_only: false, name: "delete-on-A", base: Some(both(t(&[("f", v1), ("k", v3)]))), a: t(&[("k", v3)]), b: t(&[("f", v1), ("k", v3)]) },
+        Scen { oracle_only: false, name: "delete-on-B", base: Some(both(t(&[("f", v1), ("d/g", v2)]))), a: t(&[("f", v1), ("d/g", v2)]), b: t(&[("f", v1)]) },
+        Scen { oracle_only: false, name: "both-changed-conflict", base: Some(both(t(&[("f", v1)]))), a: t(&[("f", v2)]), b: t(&[("f", v3)]) },
+        Scen { oracle_only: false, name: "delete-vs-modify", base: Some(both(t(&[("f", v1)]))), a: t(&[("f", v2)]), b: t(&[]) },
+        Scen { oracle_only: true, name: "long-name-create", base: None, a: t(&[("f", v1), (&"n".repeat(250), v2)]), b: t(&[]) },
+        Scen { oracle_only: true, name: "long-name-update", base: Some(both(t(&[("f", v1), (&"n".repeat(250), v1)]))), a: t(&[("f", v2), (&"n".repeat(250), &big)]), b: t(&[("f", v1), (&"n".repeat(250), v1)]) },
+        Scen { oracle_only: false, name: "several-paths", base: Some(both(t(&[("a", v1), ("b", v1), ("c", v1), ("d/e", v1)]))), a: t(&[("a", v2), ("b", v1), ("d/e", v3), ("n", v3)]), b: t(&[("a", v1), ("b", v2), ("c", v1), ("d/e", v2)]) },
     ];
     if a.tier == "thorough" {
         let mut r = Rng::new(a.seed ^ 0xC08);
@@ -166,7 +171,7 @@ pub fn main(a: Args) -> i32 {
                 if r.chance(2, 3) { ta.insert(p.to_string(), r.pick(&pool).to_vec()); }
                 if r.chance(2, 3) { tb.insert(p.to_string(), r.pick(&pool).to_vec()); }
             }
-            scens.push(Scen { name: "random", base: if r.chance(3, 4) { Some((base.clone(), base)) } else { None }, a: ta, b: tb });
+            scens.push(Scen { oracle_only: false, name: "random", base: if r.chance(3, 4) { Some((base.clone(), base)) } else { None }, a: ta, b: tb });
         }
     }
     let envs = |k: Option<usize>| -> Vec<(&'static str, String)> {
@@ -211,8 +216,13 @@ pub fn main(a: Args) -> i32 {
         let log = std::fs::read_to_string(&logf).unwrap_or_default();
         let nmut = log.lines().filter(|l| l.split(' ').nth(2) == Some("M")).count();
         let steps = canon_steps(&log, &env, nmut);
-        out.line("cases.txt", &format!("{} {}", id, case("all")));
-        out.line("impl.txt", &format!("{} STEPS={}", id, if steps.is_empty() { "-".to_string() } else { steps.join(",") }));
+        if sc.oracle_only {
+            out.line("cases-oracle.txt", &format!("{} {} ({})", id, case("all"), sc.name));
+        } else {
+            out.line("cases.txt", &format!("{} {}", id, case("all")));
+            out.line("impl.txt", &format!("{} STEPS={}", id, if steps.is_empty() { "-".to_string() } else { steps.join(",") }));
+        }
+        let ref_completed = code == Some(0) || _so.contains("Bidirectional sync complete");
         id += 1;
         out.count("scenarios");
         out.count(&format!("scenario_{}", sc.name));
@@ -254,10 +264,16 @@ pub fn main(a: Args) -> i32 {
             let cz = env.archive_entries();
             let klog = std::fs::read_to_string(&logf).unwrap_or_default();
             let done = canon_steps(&klog, &env, k - 1).len();
+            if sc.oracle_only {
+                out.line("cases-oracle.txt", &format!("{} {} ({}, killed before call {})", id, case(&done.to_string()), sc.name, k));
+            } else {
             out.line("cases.txt", &format!("{} {}", id, case(&done.to_string())));
+            }
             let zs = match &cz { None => "none".to_string(), Some(m) if m.is_empty() => "-".to_string(), Some(m) => m.iter().map(|(p, d)| format!("{}={}", hex(p.as_bytes()), &d[..12])).collect::<Vec<_>>().join(",") };
             let line = format!("A={};B={};GA={};GB={};Z={}", tree_str(&live(&ca)), tree_str(&live(&cb)), staging_keys(&ca), staging_keys(&cb), zs);
-            out.line("impl.txt", &format!("{} {}", id, line));
+            if !sc.oracle_only {
+                out.line("impl.txt", &format!("{} {}", id, line));
+            }
             out.count("kill_points");
             distinct.insert(format!("{}|{}", sc.name, line));
             // oracle: whole versions only
@@ -290,7 +306,9 @@ pub fn main(a: Args) -> i32 {
             let rb = live(&read_tree(&env.b));
             // leftovers named *.copia-tmp may have been propagated as ordinary files: compare the non-staging paths
             let strip = |t: &Tree| -> Tree { t.iter().filter(|(p, _)| !p.contains(".copia-tmp")).map(|(p, c)| (p.clone(), c.clone())).collect() };
-            if !ok || strip(&ra) != strip(&ref_a) || strip(&rb) != strip(&ref_b) {
+            // (a reference run that itself stops on an error - a name too long to be staged - is not expected to complete
+            // after a crash either: the trees must still be the reference run's)
+            if (!ok && ref_completed) || strip(&ra) != strip(&ref_a) || strip(&rb) != strip(&ref_b) {
                 nfail += 1;
                 out.line("specfail.txt", &format!("{} C08 {} killed before call {}: re-running bisync did not reach the uninterrupted result (completed={}) A={} B={} expected {}", id, sc.name, k, ok, tree_str(&strip(&ra)), tree_str(&strip(&rb)), tree_str(&strip(&ref_a))));
             }
